@@ -13,6 +13,7 @@ and `t_for_point` only ever answers with a parameter whose curve point is within
 root solver returns.
 -/
 import FloVerif.Gen.Overlaps
+import FloVerif.Gen.LinearFallback
 import Mathlib.Tactic.Ring
 import Mathlib.Tactic.NormNum.OfScientific
 import Mathlib.Tactic.Linarith
@@ -260,6 +261,72 @@ theorem overlap_answer_points_close (s1 s2 : K → K → K → K → K → List 
     · rw [point_at_zero]; exact (tForPoint_sound s2 c2 _ _ hq).symm
     · rw [point_at_one]; exact (tForPoint_sound s2 c2 _ _ hq).symm
   exact ⟨key a c hac, key b d hbd, n1, n2⟩
+
+/-! ### the linear fall-back -/
+
+theorem fmax_eq_max' (a b : K) : fmax a b = max a b := by
+  unfold fmax
+  by_cases h : a < b
+  · simp [h, max_eq_right h.le]
+  · simp [h, max_eq_left (not_lt.1 h)]
+
+/-- the cubic of a section: its start point, its two control points, its end point -/
+def secCubic (w1 w2 w3 w4 : V2 K) (s : SectionT K) : Cub K :=
+  ⟨section_start_point w1 w2 w3 w4 s, (section_control_points w1 w2 w3 w4 s).t0, (section_control_points w1 w2 w3 w4 s).t1,
+   section_end_point w1 w2 w3 w4 s⟩
+
+/-- **WHAT THE LINEAR FALL-BACK REPORTS** (`intersections_with_linear_section`, generated whole; in practice every transversal
+    crossing `curve_intersects_curve_clip` returns comes from here): for ANY behaviour of the two root solvers, every reported pair
+    `(linear_t, curved_t)` belongs to a hit `(curved_t, _, pos)` of `curve_intersects_ray(curved section, ray through the ends of the
+    linear section)` (what C04 proves about such hits applies), and EITHER the point of the linear section's cubic at `linear_t` is
+    within `max(accuracy, CLOSE_DISTANCE)` of `pos` (`solve_for_t_sound`), OR `linear_t = 0.5`, the linear section's ends are within
+    0.1 of each other and `pos` is within 0.05 of the section's mid point (the short-section rescue). -/
+theorem linear_fallback_sound (solve_roots : T4 K K K K → List K) (solve_basis : K → K → K → K → K → List K)
+    (a1 a2 a3 a4 b1 b2 b3 b4 : V2 K) (lin cur : SectionT K) (accuracy lt ct : K) (hacc : 0 ≤ accuracy)
+    (h : T2.mk lt ct ∈ intersections_with_linear_section solve_roots solve_basis a1 a2 a3 a4 b1 b2 b3 b4 lin cur accuracy) :
+    ∃ hit ∈ curve_intersects_ray solve_roots (secCubic b1 b2 b3 b4 cur).t0 (secCubic b1 b2 b3 b4 cur).t1 (secCubic b1 b2 b3 b4 cur).t2
+        (secCubic b1 b2 b3 b4 cur).t3 (T2.mk (section_start_point a1 a2 a3 a4 lin) (section_end_point a1 a2 a3 a4 lin)),
+      hit.t0 = ct ∧
+      (Within (max accuracy (CLOSE_DISTANCE : K))
+          (curve_point_at_pos (secCubic a1 a2 a3 a4 lin).t0 (secCubic a1 a2 a3 a4 lin).t1 (secCubic a1 a2 a3 a4 lin).t2
+            (secCubic a1 a2 a3 a4 lin).t3 lt) hit.t2 ∨
+       (lt = 0.5 ∧ is_near_to hit.t2 (section_point_at_pos a1 a2 a3 a4 lin (0.5 : K)) (CLOSE_ENOUGH : K) = true ∧
+        is_near_to (section_point_at_pos a1 a2 a3 a4 lin (0.0 : K)) (section_point_at_pos a1 a2 a3 a4 lin (1.0 : K)) (0.1 : K) = true)) := by
+  have hcd : (CLOSE_DISTANCE : K) = 0.01 := rfl
+  have hm0 : (0 : K) ≤ max accuracy (CLOSE_DISTANCE : K) := le_max_of_le_left hacc
+  have hm9 : (1e-9 : K) ≤ max accuracy (CLOSE_DISTANCE : K) := le_max_of_le_right (by rw [hcd]; norm_num)
+  -- a pair found by the first pass
+  have first : ∀ l, T2.mk lt ct ∈ List.filterMap (fun arg_0 : T3 K K (V2 K) =>
+        Option.map (fun linear_t_ => T2.mk linear_t_ arg_0.t0)
+          (solve_curve_for_t_along_axis solve_basis (secCubic a1 a2 a3 a4 lin).t0 (secCubic a1 a2 a3 a4 lin).t1
+            (secCubic a1 a2 a3 a4 lin).t2 (secCubic a1 a2 a3 a4 lin).t3 arg_0.t2 (fmax accuracy (CLOSE_DISTANCE : K)))) l →
+      ∃ hit ∈ l, hit.t0 = ct ∧ Within (max accuracy (CLOSE_DISTANCE : K))
+        (curve_point_at_pos (secCubic a1 a2 a3 a4 lin).t0 (secCubic a1 a2 a3 a4 lin).t1 (secCubic a1 a2 a3 a4 lin).t2
+          (secCubic a1 a2 a3 a4 lin).t3 lt) hit.t2 := by
+    intro l hmem
+    obtain ⟨hit, hhit, hopt⟩ := List.mem_filterMap.1 hmem
+    obtain ⟨t, hsolve, hpair⟩ := Option.map_eq_some_iff.1 hopt
+    simp only [T2.mk.injEq] at hpair
+    obtain ⟨rfl, rfl⟩ := hpair
+    refine ⟨hit, hhit, rfl, ?_⟩
+    rw [fmax_eq_max'] at hsolve
+    rcases solve_for_t_sound solve_basis _ _ _ _ _ _ _ hsolve with ⟨_, _, hn, _⟩ | ⟨rfl, hn⟩ | ⟨rfl, hn⟩
+    · exact (is_near_to_iff _ _ _).1 hn
+    · rw [point_at_zero]; exact Within.mono ((is_near_to_iff _ _ _).1 hn) (by norm_num) hm9
+    · rw [point_at_one]; exact Within.mono ((is_near_to_iff _ _ _).1 hn) (by norm_num) hm9
+  unfold intersections_with_linear_section at h
+  dsimp only at h
+  split_ifs at h with hempty hshort
+  · -- the rescue for a short linear section
+    obtain ⟨hit, hhit, hopt⟩ := List.mem_filterMap.1 h
+    split_ifs at hopt with hnear
+    · simp only [Option.some.injEq, T2.mk.injEq] at hopt
+      obtain ⟨rfl, rfl⟩ := hopt
+      exact ⟨hit, hhit, rfl, Or.inr ⟨rfl, hnear, hshort⟩⟩
+  · obtain ⟨hit, hhit, hc, hw⟩ := first _ h
+    exact ⟨hit, hhit, hc, Or.inl hw⟩
+  · obtain ⟨hit, hhit, hc, hw⟩ := first _ h
+    exact ⟨hit, hhit, hc, Or.inl hw⟩
 
 /-! ### non-vacuity -/
 section example_
